@@ -14,8 +14,8 @@ QUICK = [(1, "enc", 0, 0, 2), (1, "enc", 24, 0, 2), (1, "enc", 40, 1, 2), (1, "d
          (2, "enc", 24, 0, 2), (2, "enc", 64, 0, 2), (2, "enc", 70, 0, 2), (2, "enc", 40, 1, 2), (2, "dec", 64, 0, 2), (2, "dec", 80, 0, 2),
          ]
 THOROUGH = QUICK + [(3, "enc", 40, 0, 2), (2, "enc", 70, 1, 2), (2, "dec", 96, 1, 2), (2, "enc", 134, 0, 2), (3, "enc", 70, 0, 2), (3, "dec", 96, 0, 2),
-                    (3, "enc", 100, 0, 2), (3, "enc", 40, 1, 2), (2, "enc", 40, 0, 1), (3, "enc", 56, 0, 1), (2, "dec", 64, 1, 1)]
-PCT_QUICK = [(3, "enc", 100, 300), (4, "enc", 200, 150), (8, "enc", 300, 60), (16, "dec", 560, 30)]
+                    (3, "enc", 104, 0, 2), (3, "enc", 40, 1, 2), (2, "enc", 40, 0, 1), (3, "enc", 56, 0, 1), (2, "dec", 64, 1, 1)]
+PCT_QUICK = [(3, "enc", 104, 300), (4, "enc", 200, 150), (8, "enc", 300, 60), (16, "dec", 560, 30)]
 PCT_THOROUGH = [(4, "enc", 200, 3000), (4, "dec", 256, 3000), (8, "enc", 300, 1500), (16, "enc", 600, 600), (16, "dec", 560, 600)]
 
 
